@@ -5,7 +5,7 @@ Monitors (all oracles in the reference matrix domain, vrf/oracles/lie_ref.py, lo
   log_expm   (a) the case-split-free matrix exponential of the generator of Log(X) equals the
                  documented 4x4 matrix of X (built from the raw components the *input* had
                  after rounding to the dtype), blockwise with the tolerances of C01
-  log_norm   (b) |phi(Log X)| <= pi (1 + 8u)
+  log_norm   (b) |phi(Log X)| <= pi (1 + 16u)   (pi v/|v| carries three roundings)
   log_negq   (c) rotation angle <= pi - 1e-2:  Log(X) = Log(X with q -> -q)
   log_inv    (c) rotation angle <= pi - 1e-2:  Log(Inv X) = -Log X
   log_exp    (d) |phi| <= pi - 1e-3:  Log(Exp x) = x  (rotation relative, log-scale absolute in
@@ -45,7 +45,7 @@ ASSUME = ["longdouble scaling-and-squaring Taylor oracle for expm (validated eac
           "CPU only"]
 
 C_ROT, C_TRANS_REL, C_TRANS_ABS = 64.0, 8.0, 64.0
-C_PHI, C_SIG, C_NORM = 64.0, 32.0, 8.0
+C_PHI, C_SIG, C_NORM = 64.0, 32.0, 16.0
 PI = np.pi
 
 
